@@ -11,7 +11,7 @@
 (* independent, so the rest of the trace is still checked): the verdict is *)
 (* printed and counted, and the logged effect becomes the next state.      *)
 (***************************************************************************)
-EXTENDS Bid, Encl, Json, IOUtils
+EXTENDS Bid, Fmt, Json, IOUtils
 
 Events == ndJsonDeserialize(IOEnv.VERIF_TRACE)
 
@@ -324,8 +324,25 @@ PanicAllowed(e) ==
   \/ e.op \in {"Sign", "Payload", "Int", "Rat", "Float", "ToInt"}       \* each verdict checks the documented condition
   \/ (e.op = "Parse" /\ e.via = "MustParse")
 
-\* C07 formatting: see Fmt.tla (until then: totality and determinism only)
-FormatVerdict(e) == "ok"
+\* C07 formatting (Fmt.tla).  Specs outside the flags/width/precision/verb grammar and very large precisions or widths
+\* are checked for totality only (C20).
+FormatVerdict(e) ==
+  CASE e.op = "Sprintf" ->
+         LET sp == SpecParse(e.spec) IN
+         IF ~sp.ok \/ sp.prec > 200 \/ sp.width > 2000 THEN "ok"
+         ELSE LET want == FormatSem(Decode(e.x), sp.verb, sp.prec, sp.width, sp.fl) IN
+              IF Has(e, "fs") /\ e.fs # want THEN "specfault:toolchain-float64-differs"      \* FormatSem itself is tied to the installed fmt
+              ELSE IF e.s # want THEN "reject:Sprintf"
+              ELSE IF Has(e, "appanic") THEN "reject:Append-panic"
+              ELSE IF e.ap # e.s THEN "reject:Append(spec)"
+              ELSE "ok"
+    [] e.op = "Format" ->
+         IF e.verb \notin {cE, cBigE, cF, cG, cBigG} \/ e.prec > 200 \/ e.prec < 0 - 1 THEN "ok"
+         ELSE LET want == PlainFormatSem(Decode(e.x), e.verb, e.prec) IN
+              IF e.s # want THEN "reject:Format"
+              ELSE IF e.ap # <<112, 114, 101>> \o want THEN "reject:Append"
+              ELSE "ok"
+    [] OTHER -> "ok"
 
 \* C20 pieces without a value semantics of their own: totality only
 PayloadVerdict(e) == LET x == Decode(e.x) IN IF IsNaN(x) THEN B2S(~Panicked(e)) ELSE B2S(Panicked(e))     \* documented panic
